@@ -36,7 +36,6 @@ import (
 	"net/http"
 	"strings"
 	"sync/atomic"
-	"syscall"
 	"time"
 
 	kit "github.com/refraction-networking/conjure/internal/verifkit"
@@ -284,13 +283,6 @@ func verifC11RawGen(r *rand.Rand, idx int) kit.C11Case {
 }
 
 func (h *verifC11API) verifRawDrive(rec *kit.Rec) {
-	// A server that sizes a buffer by the announced length would try to allocate gigabytes per request;
-	// cap this process's address space so that such a defect ends THIS child ("fatal error: out of
-	// memory", reported as a crash) instead of exhausting the machine the other checks run on.
-	lim := syscall.Rlimit{Cur: 12 << 30, Max: 12 << 30}
-	if err := syscall.Setrlimit(syscall.RLIMIT_AS, &lim); err != nil {
-		rec.Note("could not cap the address space: " + err.Error())
-	}
 	n := kit.Tier(3000, 60000) // per endpoint: every exchange is a TCP connection of its own
 	for _, e := range []struct{ entry, path string }{
 		{"apiregserver.registerBidirectional[raw framing]", "/register-bidirectional"},
